@@ -434,7 +434,7 @@ pub fn exhaustive_cases_two_controllers(len: usize) -> Vec<SCase> {
     out
 }
 
-pub const RULE: &str = "the REAL BlockingMap / TaskBlockingQueue / TaskBlockingQueueSender / BlockingHandle over two mock senders (inner = handed to the source Redis, keeps the CounterTask alive until a completer thread drops it; retry = re-dispatched), driven by real OS threads under a deterministic cooperative scheduler: the backend address may have had 1..2 earlier lives (queue and sender created and dropped); 1..3 sender threads (1..3 commands each, hint computed like RedisScanMigratingTask::send, Retry recomputed up to 3 times), 1..2 controllers (start_blocking, poll blocking_done, BARRIER-UP, hold, BARRIER-DOWN, drop the handle) and a completer; control changes hands only at the scheduling points compiled into undermoon by hook H3 (before every shared-memory access of proxy/blocking.rs and between the load and the compare-exchange of common/biatomic.rs) and at harness points; the schedule is a generated byte vector (then round robin); [exhaustive] every schedule prefix of length 9 over 4 participants for 2 senders x 1 command and 1 controller [exhaustive] and for 1 sender and 2 controllers [exhaustive-2ctrl]; oracle over the logically time-stamped event log: no command handed to Redis while a barrier is up, every command ends in exactly one of {handed to Redis once, re-dispatched once, given up}, at quiescence not blocking and no running command; non-trivial = a controller step executed while a sender was between its counter increment/state read/enqueue/re-check; distinct = hash of the case";
+pub const RULE: &str = "the REAL BlockingMap / TaskBlockingQueue / TaskBlockingQueueSender / BlockingHandle over two mock senders (inner = handed to the source Redis, keeps the CounterTask alive until a completer thread drops it; retry = re-dispatched), driven by real OS threads under a deterministic cooperative scheduler: the backend address may have had 1..2 earlier lives (queue and sender created and dropped); 1..3 sender threads (1..3 commands each, hint computed like RedisScanMigratingTask::send, Retry recomputed up to 3 times), 1..2 controllers (start_blocking, poll blocking_done, BARRIER-UP, hold, BARRIER-DOWN, drop the handle) and a completer; control changes hands only at the scheduling points compiled into undermoon by hook H3 (before every shared-memory access of proxy/blocking.rs and between the load and the compare-exchange of common/biatomic.rs) and at harness points; the schedule is a generated byte vector (then round robin); [exhaustive] every schedule prefix of length 7 (quick) / 8 (thorough) over 4 participants for 2 senders x 1 command and 1 controller [exhaustive] and for 1 sender and 2 controllers [exhaustive-2ctrl]; oracle over the logically time-stamped event log: no command handed to Redis while a barrier is up, every command ends in exactly one of {handed to Redis once, re-dispatched once, given up}, at quiescence not blocking and no running command; non-trivial = a controller step executed while a sender was between its counter increment/state read/enqueue/re-check; distinct = hash of the case";
 
 pub const RULE_FREE: &str = "[free-running] the same participants and the same event-log oracle WITHOUT the scheduler: 1..3 senders, 1..2 controllers and the completer are real threads released together by a barrier and race freely (the product's hook points are inert), so interleavings inside code that carries no hook point (e.g. a rewritten compare-and-swap loop) are reachable too; sound (a logged event order is a real execution order) but not reproducible: a violation is reported with the observed event log; non-trivial = at least two controllers or two senders; distinct = hash of the case";
 
@@ -449,11 +449,11 @@ pub fn run(ctx: &Ctx, findings: &Findings) -> PropReport {
             }
         }
     } else {
-        subs.push(drive(ctx, findings, "schedules", RULE, ctx.cases(12000, 400000), strategy, &check));
-        let len = ctx.tier.pick(7, 9);
-        subs.push(drive(ctx, findings, "free-running", RULE_FREE, ctx.cases(6000, 300000), free_strategy, &check));
+        subs.push(drive(ctx, findings, "schedules", RULE, ctx.cases(12000, 200000), strategy, &check));
+        let len = ctx.tier.pick(7, 8);
+        subs.push(drive(ctx, findings, "free-running", RULE_FREE, ctx.cases(6000, 100000), free_strategy, &check));
         subs.push(drive_enum(ctx, findings, "exhaustive", RULE, exhaustive_cases(len), true, &check));
-        subs.push(drive_enum(ctx, findings, "exhaustive-2ctrl", RULE, exhaustive_cases_two_controllers(ctx.tier.pick(6, 9)), true, &check));
+        subs.push(drive_enum(ctx, findings, "exhaustive-2ctrl", RULE, exhaustive_cases_two_controllers(ctx.tier.pick(6, 8)), true, &check));
     }
     PropReport {
         level: "fault_enumeration",
